@@ -96,6 +96,16 @@ def apply(lst, op, key=str):
         lst.sort(key=key, reverse=True)
     elif k == "clear":
         lst.clear()
+    elif k == "assign":
+        # whole-list assignment.  op = ("assign", value, snapshot of the value taken before the call, owner or None):
+        # a plain list gets `[:] = snapshot`; a container gets `owner.contents = value` (the property SETTER), any other
+        # monitored list `lst[:] = value`
+        if type(lst) is list:
+            lst[:] = op[2]
+        elif op[3] is not None:
+            op[3].contents = op[1]
+        else:
+            lst[:] = op[1]
     return lst
 
 
@@ -132,6 +142,8 @@ def touched(op, n, items):
         return (i, i + 1, 1, 0)
     if k == "clear":
         return (0, n, 1, 0)
+    if k == "assign":  # positions 0..n-1 replaced in place by len(value) items
+        return (0, n, 1, len(op[2]))
     return None
 
 
@@ -232,6 +244,10 @@ class Client:
     def bad_item(self):
         return None
 
+    def reweighted(self, item):
+        """The same item at the same position with new options (containers); lists of plain items: a new item in its place."""
+        return self.new(7, self.variants[0])
+
 
 class MflClient(Client):
     def build(self, n, f, variant):
@@ -290,6 +306,14 @@ class ContainerClient(Client):
 
     def bad_item(self):
         return (_leaf(999, False), ("no-such-sizing", 3))
+
+    def reweighted(self, item):
+        w = item[0]
+        if self.name == "pile":
+            return (w, ("given", 2))
+        if self.name == "columns":
+            return (w, urwid.Columns.options("weight", 2))
+        return (w, ("given", 5))
 
 
 class GridFlowClient(ContainerClient):
@@ -368,6 +392,77 @@ def _bad_ops(n):
     if n:
         yield ("setitem", n - 1, "BAD")
         yield ("setitem", slice(None, None, -1), ["BAD"] * n)
+    for kind in BAD_ASSIGN_KINDS:
+        yield ("assign", kind)
+
+
+class _LiveView:
+    """A Collection that reads the monitored list lazily, at the time it is iterated / measured (a value "derived from the
+    current contents"): a built-in list materialises the right-hand side of `lst[:] = value` before it changes anything."""
+
+    def __init__(self, ml):
+        self.ml = ml
+
+    def __len__(self):
+        return len(self.ml)
+
+    def __iter__(self):
+        return iter(list.__iter__(self.ml))
+
+    def __contains__(self, x):
+        return any(x is y for y in self)
+
+
+ASSIGN_KINDS = ("same", "self", "view", "reweight", "reversed", "rotated", "shorter", "head", "empty", "longer", "prepended", "fresh1", "fresh3",
+                "middle-replaced")
+BAD_ASSIGN_KINDS = ("BAD-appended", "BAD-only", "BAD-inside", "BAD-first-reweighted")
+
+
+def _assign_ops():
+    for kind in ASSIGN_KINDS:
+        yield ("assign", kind)
+
+
+def _assign_value(kind, ml, items, cl, variant, bad):
+    """The right-hand side of a whole-list assignment, from the list's present items."""
+    new = lambda j: cl.new(j, variant)  # noqa: E731
+    if kind == "same":
+        return list(items)
+    if kind == "self":
+        return ml
+    if kind == "view":
+        return _LiveView(ml)
+    if kind == "reweight":
+        return [cl.reweighted(x) for x in items]
+    if kind == "reversed":
+        return items[::-1]
+    if kind == "rotated":
+        return items[1:] + items[:1]
+    if kind == "shorter":
+        return items[:-1]
+    if kind == "head":
+        return items[:1]
+    if kind == "empty":
+        return []
+    if kind == "longer":
+        return [*items, new(0), new(1)]
+    if kind == "prepended":
+        return [new(0), *items]
+    if kind == "fresh1":
+        return [new(0)]
+    if kind == "fresh3":
+        return [new(0), new(1), new(2)]
+    if kind == "middle-replaced":
+        return [new(j) if 0 < j < len(items) - 1 else x for j, x in enumerate(items)]
+    if kind == "BAD-appended":
+        return [*items, bad]
+    if kind == "BAD-only":
+        return [bad]
+    if kind == "BAD-inside":
+        return [*items[:1], bad, *items[1:]]
+    if kind == "BAD-first-reweighted":
+        return [*(cl.reweighted(x) for x in items), new(0), bad]
+    raise ValueError(kind)
 
 
 class _Detail:
@@ -386,7 +481,11 @@ def one(n, f, op, client="mfl", variant=None, bad=False):
     variant = cl.variants[0] if variant is None else variant
     ml, items, events, owner = cl.build(n, f, variant)
     refused = bad
-    cop = concretise(op, items, lambda j: cl.new(j, variant), cl.bad_item() if bad else None)
+    if op[0] == "assign":
+        value = _assign_value(op[1], ml, items, cl, variant, cl.bad_item() if bad else None)
+        cop = ("assign", value, list(value), owner)
+    else:
+        cop = concretise(op, items, lambda j: cl.new(j, variant), cl.bad_item() if bad else None)
     plain = list(items)
     focus0 = ml.focus
     stored0 = getattr(ml, "_focus", focus0)
@@ -405,10 +504,13 @@ def one(n, f, op, client="mfl", variant=None, bad=False):
     else:
         exc_text = "None"
     rec = list(owner.rec) if owner is not None else []
+    same_object = owner is None or (owner.contents is ml and owner._contents is ml)
     detail = _Detail(lambda: {"client": client, "variant": variant, "n": n, "focus": f, "op": repr(op), "list": repr(list(ml)), "plain": repr(plain),
                               "new_focus": repr(ml.focus), "exc": exc_text, "exc_plain": str(exc_p), "events": repr(events), "owner_events": repr(rec)})
     if exc_p is not exc_m:
         return False, detail | {"why": "different error than a plain list (the owner's error for a refused item)"}
+    if not same_object:
+        return False, detail | {"why": "the container holds another list object than before (aliases of .contents and the wired callbacks are cut off)"}
     if list(ml) != plain or any(x is not y for x, y in zip(ml, plain)):
         return False, detail | {"why": "contents differ from a plain list"}
     if exc_m is not None:
@@ -468,6 +570,7 @@ def _family(chk, client, variant, maxn, steps, with_bad=False, dedupe_above=None
         rg = range(-n - 2, n + 3)
         for f in range(max(n, 1)):
             ops = list(_ops(n, rg, steps, True, dedupe=dedupe_above is not None and n > dedupe_above))
+            ops += list(_assign_ops())
             if with_bad:
                 ops += list(_bad_ops(n))
             nbad = len(list(_bad_ops(n))) if with_bad else 0
